@@ -55,6 +55,14 @@ func tText(c context, s []byte) (context, int) {
 		}
 		j, e := eatTagName(s, i)
 		if j != i {
+			if j < len(s) && bytes.IndexByte(tagNameEnds, s[j]) < 0 {
+				// For a browser every other byte continues the tag name
+				// (`<a.b>`, `<textarea\vx>`): the element is not the one named so far.
+				return context{
+					state: stateError,
+					err:   errorf(ErrBadHTML, nil, 0, "expected space, attr name, or end of tag, but got %q", s[j:]),
+				}, len(s)
+			}
 			// We've found an HTML tag.
 			ret := context{state: stateTag}
 			// Element name not needed if we are at the end of the element.
@@ -66,6 +74,9 @@ func tText(c context, s []byte) (context, int) {
 		k = j
 	}
 }
+
+// tagNameEnds contains the bytes that end a tag name.
+var tagNameEnds = []byte(" \t\n\f\r/>")
 
 // specialElements contains the names of elements whose bodies are treated
 // differently by the parser and escaper from stateText.
